@@ -27,7 +27,27 @@ pub mod rodbus {
     pub use crate::decode::*;
     pub use crate::types::*;
     pub mod server { pub use crate::ffi_server::Authorization; pub use crate::rodbus_server::*; }
+    pub mod client { pub use crate::rodbus_client::*; }
 }
+pub mod rodbus_client {
+//@include frag/ffi_rodbus_client_shim.tpl
+}
+// sfio-promise: wraps a C completion callback so that dropping it still completes it; opaque here
+pub mod sfio_promise {
+    use vstd::prelude::*;
+    pub struct Wrapped<T> { pub t: T }
+    #[verifier::external_body]
+    pub fn wrap<T>(t: T) -> (r: Wrapped<T>) { unimplemented!() }
+    impl<T> Wrapped<T> {
+        #[verifier::external_body]
+        pub fn complete<R>(self, res: R) { unimplemented!() }
+    }
+}
+//@trusted sfio_promise::wrap / complete: opaque (that every completion callback fires exactly once is not decided)
+pub mod client {
+//@include frag/ffi_client.tpl
+}
+pub use client::{ClientChannel, BitList, RegisterList};
 pub mod rodbus_server {
 //@include frag/ffi_rodbus_server_shim.tpl
 }
